@@ -14,6 +14,7 @@ A scenario (JSON-able):
      "work": k,                          # "iter": loop iterations spent in the loop body per item
      "cancel_at": id,                    # "callbacks": the callback calls request.observation.cancel() when it is
                                          # handed the message with this id (from inside the callback)
+     "eb_cancels": bool,                 # "callbacks": the errback calls request.observation.cancel()
      "rc": i,                            # the application gives the request up -- request.response.cancel(), what
                                          # asyncio.wait_for does on time-out -- just before arrival i (0 = before
                                          # the first response; later the future is complete and nothing changes)
@@ -118,8 +119,12 @@ class AppBench:
 
         if sc["consumer"] == "callbacks":
             req.observation.register_callback(app_callback, _suppress_deprecation=True)
-            req.observation.register_errback(lambda e: seen.append(("eb", _name(e, Error))),
-                                             _suppress_deprecation=True)
+            def app_errback(e):
+                seen.append(("eb", _name(e, Error)))
+                if sc.get("eb_cancels"):
+                    req.observation.cancel()
+
+            req.observation.register_errback(app_errback, _suppress_deprecation=True)
 
         async def consume():
             try:
@@ -143,6 +148,7 @@ class AppBench:
         resp = None
         pending = None
         snapshot = []
+        after_shutdown = None
         open_delay = sc.get("open", 0)
 
         async def opener():
@@ -205,10 +211,11 @@ class AppBench:
                 await ctx.shutdown()
             except Exception as e:        # noqa
                 escaped.append(("shutdown", type(e).__name__))
-            await turn(3)
+            await turn(8)
+            after_shutdown = seen[len(snapshot):]
             loop.set_exception_handler(old_handler)
         return {"seen": snapshot, "resp": resp, "escaped": escaped, "loop_errors": loop_errors,
-                "pending": pending}
+                "pending": pending, "after_shutdown": after_shutdown}
 
 
 # ---------------------------------------------------------------------------------------------
@@ -310,6 +317,11 @@ def oracle_app(sc, res):
         if end is None:
             if ebs:
                 return f"errback {ebs} although the observation runs", "app:end"
+            # the harness then shuts the context down: "ends ... with a network error on transport failure" has its
+            # sibling in C18 -- the observation is told LibraryShutdown, once (and nothing escapes: checked above)
+            if res.get("after_shutdown") is not None and res["after_shutdown"] != [("eb", "LibraryShutdown")]:
+                return (f"Context.shutdown() with the observation running: errbacks must get LibraryShutdown once, "
+                        f"saw {res['after_shutdown']}"), "app:shutdown-end"
         elif ebs != [end]:
             return f"observation must end once with {end}, errbacks got {ebs}", "app:end"
     else:
